@@ -476,7 +476,7 @@ def scenario(calls, cutA, cutB, chunkA=7, chunkB=7, loss="lost", stall_release="
             # the peer sends a protocol violation (over-long header, witness of the repaired D2): the caller must drop
             # the connection by itself -- no exception may escape dataReceived -- and then sees connectionLost
             A.dataReceived(b"\x00" * 70 + b"x" * 300)
-            if not tA.closed:
+            if not tA.closed and sentB in (0, len(tB.out)):      # only at a token boundary is it certainly a violation
                 rec.errors.append("protocol violation did not make the broker close its transport")
             A.connectionLost(done)
             B.connectionLost(done)
@@ -739,7 +739,7 @@ def tub_scenario(rng, event, nsteps, log_remote=False, mix=("ok", "boom", "late"
 
 def tub_level(ctx):
     events = ["stop-a", "stop-b", "cut", "replace", "none"]
-    n = ctx.n(80, 1000)
+    n = ctx.n(80, 600)
     for i in range(n):
         ev_ = events[i % len(events)]
         nsteps = ctx.rng.choice([0, 1, 2, 3, 5, 8, 13, 21, 40, 80, 200])
